@@ -93,12 +93,12 @@ PROPS = {
     'C05': {'specs': [LIB_SPEC, TITLES_SPEC], 'notes': COMMON + [
         'oracle: independent scan of the input Documents with the statement\'s resolution rule (relative to the linking note\'s directory, .md ignored, '
         'external URLs excluded); notes in the library root only (sub-directory resolution is string/path code, see not-claimed C15)']},
-    'C13': {'specs': [KERNEL_SPEC, LINESTARTS_SPEC, POS_SPEC, POSB_SPEC, SERVER_SPEC], 'notes': COMMON + [
+    'C13': {'specs': [KERNEL_SPEC, LINESTARTS_SPEC, POS_SPEC, POSB_SPEC, SERVER_SPEC, dict(LIB_SPEC, crates=('liwe', 'iwes'))], 'notes': COMMON + [
         'claimed for the conversion kernels: to_line_range / to_inline_range over every sorted line table (symbolic 64-bit entries) and byte range; '
         'line_starts over strings given by their line structure (symbolic line lengths, LF / CRLF / missing final newline), std str::lines / '
         'split_inclusive / split / len modelled on that structure',
         'which byte ranges pulldown-cmark reports for a block (e.g. a last line without newline) and UTF-16 vs byte columns are outside the claim']},
-    'C01': {'specs': DOC_ALL + [LIB_META_SPEC, EVENTS_SPEC], 'notes': COMMON + ['claimed at block level: every block/token of the input appears once, in order, in the same container, same kind']},
+    'C01': {'specs': DOC_ALL + [LIB_META_SPEC, EVENTS_SPEC, TITLES_SPEC], 'notes': COMMON + ['claimed at block level: every block/token of the input appears once, in order, in the same container, same kind']},
     'C03': {'specs': DOC_ALL + [POSB_SPEC, EVENTS_SPEC], 'notes': COMMON + ['claimed for blocks -> graph -> tree -> projection: every compiler-emitted panic edge / unwrap / expect / explicit panic reachable within the bounds is a violation']},
     'C07': {'specs': DOC_ALL, 'notes': COMMON + ['heading levels are symbolic u8 in 1..6; laws: order kept, emitted outline well nested, well-nested input keeps its levels, blocks stay under the nearest preceding heading']},
     'C20': {'specs': DOC_ALL + [LIB_SPEC], 'notes': COMMON + ['representation invariant checked on every arena produced within the bounds (establish step) and after every update_key step of the library harness (preserve step: RI, ids never reused, other notes untouched)']},
